@@ -712,15 +712,31 @@ func runWrap(sc *Scenario, res *Result, keepLog bool) {
 		wsources = append(wsources, plainW)
 		usources = append(usources, plainU)
 	}
-	func() {
-		defer func() {
-			if x := recover(); x != nil {
-				r.fail("crash", "Config panicked: %v", x)
-				errW = fmt.Errorf("panic")
-			}
-		}()
-		r.W, errW = dials.Config(r.ctx, defaults(), wsources...)
-	}()
+	{
+		// Config runs as a task: should it block (a wrapper that waits for a
+		// monitor which does not exist yet), that is a call that never
+		// returns, not a deadlock of the simulator
+		returned := false
+		s.Spawn("config", func() {
+			defer func() {
+				if x := recover(); x != nil {
+					r.fail("crash", "Config panicked: %v", x)
+					errW = fmt.Errorf("panic")
+				}
+				returned = true
+			}()
+			r.W, errW = dials.Config(r.ctx, defaults(), wsources...)
+		})
+		if reason := s.Run(sc.MaxSteps, func() bool { return returned }, time.Time{}); reason != simrt.Done {
+			r.fail("stuck", "Config over the wrapped source never returned (%s): %s", reason, s.ParkedLabels())
+			r.cancel()
+			s.Run(2000, nil, time.Now().Add(settleHorizon))
+			res.Reason = "config-stuck"
+			res.Viol = r.viol
+			res.Hash, res.Steps, res.NChoices, res.SimNS, res.States = s.Hash(), s.Step(), s.Choices(), int64(s.Elapsed()), s.States
+			return
+		}
+	}
 	expectErr := w.Fault != "" && (w.Kind == "twatch" || w.Kind == "tstatic") && !(w.Fault == "watch-err" && w.Kind == "tstatic")
 	switch {
 	case expectErr && errW == nil:
